@@ -4,7 +4,7 @@ CONSTANTS Names <- NamesAB Depth = 1 Vals <- None Sep = 46 Design = "list" Base 
   Configs <- DefaultOnly OptNames <- None SecNames <- None Values <- None Decos <- None MaxNodes = 0 MaxDepth = 0
   Routes <- None Cfgs <- None SingleKinds <- None PrePaths <- None
   LoadKinds <- None TwoFiles = FALSE EnvCalls <- None ArgCalls <- None ClearLists <- None
-  MsgSets <- None MsgGets <- None NodeBases <- None FputSeps <- FputT
+  MsgSets <- None MsgGets <- None NodeBases <- None FputSeps <- FputQ
   MaxOps = 0 MaxArr = 0 SinglesFirst = FALSE Observe = TRUE
 CONSTRAINT BoundPT
 VIEW ViewP
